@@ -5,35 +5,85 @@
    models in Auto/AutoModel.v, Auto/AutoMapModel.v, Auto/F32.v.
 
    [q_run ops (q_init n r) = Some (s, dss)]: s is the learn bookkeeping after the
-   history ops of createBinding / clearSlot / handleMidi on n slots, for ANY
+   history ops of createBinding / clearSlot / handleMidi on n slots (the queue
+   model alone; the theorems named C19_learn_fifo, C19_queue_inv are stated over
+   the full model m_run through the projection m_proj), for ANY
    list ops and ANY initial NRPN registers r (the constructor leaves them
    uninitialised); dss are the slots driven by each operation.  None = a
    createBinding outside the slot array (no range check in the code). *)
 From Coq Require Import List ZArith.
 From Coq Require Import Reals.
 From Flocq Require Import IEEE754.Binary IEEE754.Bits.
-From RtoscV Require Import Auto.F32 Auto.AutoModel Auto.AutoMapModel Auto.AutoProofs Auto.AutoMapProofs Auto.AutoRemapProofs Auto.FloatOrder Auto.AutoMonoProofs Auto.AutoCpProofs Auto.AutoDefaultProofs Auto.AutoLogProofs Auto.AutoRegress Auto.AutoMapRegress.
+From RtoscV Require Import Auto.F32 Auto.AutoModel Auto.AutoMapModel Auto.AutoProofs Auto.AutoMapProofs Auto.AutoRemapProofs Auto.FloatOrder Auto.AutoMonoProofs Auto.AutoCpProofs Auto.AutoDefaultProofs Auto.AutoLogProofs Auto.AutoHistProofs Auto.AutoRegress Auto.AutoMapRegress.
 Import ListNotations.
 Local Open Scope Z_scope.
 
-(* pending slots carry exactly 1..k, k = learn_queue_len *)
-Theorem C19_queue_inv : forall ops n r s dss,
-  q_run ops (q_init n r) = Some (s, dss) -> queue_inv s.
-Proof. exact run_queue_inv. Qed.
+(* ---- over histories of the FULL model m_run (what the correspondence run
+   executes).  [m_proj logf expf ops st0] is the history projected onto the
+   learn bookkeeping: a createBinding counts when it reaches the learn line (port
+   known, bindable, a free sub-automation in its slot - the early returns of
+   createBinding drop the others), a clearSlot when the slot exists, every
+   handleMidi; gain/offset/updateMapping/setSlot/clearSlotSub do not touch it. *)
+
+(* the learn bookkeeping of the full model is the queue model run on the
+   projected history *)
+Theorem C19_history_projection : forall logf_o expf_o ops st st' mss,
+  m_run logf_o expf_o ops st = Some (st', mss) ->
+  exists dss, q_run (m_proj logf_o expf_o ops st) (q st) = Some (q st', dss).
+Proof. exact m_run_proj. Qed.
 
 (* slots that asked for MIDI learn are bound, one per previously unbound
    controller, in the order in which they asked, regardless of creates and
-   clears in between: the model's history is a history of the FIFO queue
-   machine [s_step] (append on request, remove on clear, pop the head on an
-   unbound controller) with the same driven slots, and the per-slot integers
+   clears in between: the history of the full model is a history of the FIFO
+   queue machine [s_step] (append on request, remove on clear, pop the head on an
+   unbound controller) with the same driven slots dss, and the per-slot integers
    are the positions in that queue *)
-Theorem C19_learn_fifo : forall ops n r s dss,
+Theorem C19_learn_fifo : forall logf_o expf_o ops n per r st mss,
+  m_run logf_o expf_o ops (m_init n per r) = Some (st, mss) ->
+  exists a dss,
+    s_run (m_proj logf_o expf_o ops (m_init n per r)) (s_init n r) = Some (a, dss) /\
+    q_run (m_proj logf_o expf_o ops (m_init n per r)) (q_init n r) = Some (q st, dss) /\
+    abs (q st) a.
+Proof. exact m_learn_fifo. Qed.
+
+(* the driven slots are what a handleMidi of the full model sends to: setSlot of
+   each of them in order, with the raw value num/den *)
+Theorem C19_midi_drives : forall logf_o expf_o st c t v st' ms r,
+  m_step logf_o expf_o st (MMidi c t v) = Some (st', ms, r) ->
+  let '(q', ds, ret) := q_midi c t v (q st) in
+  st' = mkM q' (subs st) /\ r = ret /\ ms = flat_map (drive_msgs expf_o st') ds.
+Proof. exact m_midi_msgs. Qed.
+
+(* pending slots carry exactly 1..k, k = learn_queue_len, and no two slots are
+   ever bound to the same controller - after any history of the full model *)
+Theorem C19_queue_inv : forall logf_o expf_o ops n per r st mss,
+  m_run logf_o expf_o ops (m_init n per r) = Some (st, mss) -> queue_inv (q st) /\ uniq (q st).
+Proof. exact m_queue_inv. Qed.
+
+(* the projection is not trivial: bind with learn, bind an unknown port (dropped),
+   clear another slot, an unbound controller: slot 0 is bound to CC 20 and driven *)
+Theorem C19_learn_fifo_nonvacuous :
+  let id := fun x : f32 => x in
+  m_proj id id ex_hist (m_init 2 1 (mkR 0 0 0 0)) = [QCreate 0 true; QClear 1; QMidi 0 20 64] /\
+  match m_run id id ex_hist (m_init 2 1 (mkR 0 0 0 0)) with
+  | Some (st, mss) =>
+      map (fun x => (learning x, cc x)) (qslots (q st)) = [(-1, 20); (-1, -1)] /\
+      map (map (fun m => match m with MsgF p _ => p | _ => [] end)) mss = [[]; []; []; [[47; 102; 97]]]
+  | None => False
+  end.
+Proof. exact m_proj_nonvacuous. Qed.
+
+(* ---- the same three facts about the queue model alone (any qop history) ---- *)
+Theorem C19_queue_inv_qrun : forall ops n r s dss,
+  q_run ops (q_init n r) = Some (s, dss) -> queue_inv s.
+Proof. exact run_queue_inv. Qed.
+
+Theorem C19_learn_fifo_qrun : forall ops n r s dss,
   q_run ops (q_init n r) = Some (s, dss) ->
   exists a, s_run ops (s_init n r) = Some (a, dss) /\ abs s a.
 Proof. exact learn_fifo. Qed.
 
-(* no two slots are ever bound to the same controller *)
-Theorem C19_bindings_unique : forall ops n r s dss,
+Theorem C19_bindings_unique_qrun : forall ops n r s dss,
   q_run ops (q_init n r) = Some (s, dss) -> uniq s.
 Proof. exact run_uniq. Qed.
 
@@ -88,6 +138,30 @@ Theorem C19_addr_type : forall logf_o expf_o ops n per r st mss,
   m_run logf_o expf_o ops (m_init n per r) = Some (st, mss) ->
   Forall (Forall (msg_bound (bound_params ops))) mss.
 Proof. exact run_addr_type. Qed.
+
+(* ... and with a value inside that parameter's DECLARED range, after any history:
+   [msg_ok logf expf eps PS m] (Auto/AutoHistProofs.v): m goes to a parameter p of
+   PS, bindable, with p's path and type, and
+     float, linear scale: declared min <= max  ->  min <= value <= max (fle: no NaN);
+     float, log scale (under the three libm hypotheses, declared 0 < min <= max):
+                          value finite in [min*(1-eps), max*(1+eps)];
+     int: declared bounds ordered integers lo..hi in int range -> lo <= value <= hi;
+     MsgUB (the (int) conversion was undefined) ONLY for an int parameter whose
+          declared bounds are NOT ordered integers in int range ([int_bounds]);
+     toggles: true/false.
+   The history invariant behind it ([sub_decl], second conjunct): every used
+   sub-automation carries path, type, min, max and scale that createBinding
+   stored for an accepted parameter - gain, offset and updateMapping never
+   change them. *)
+Theorem C19_in_range_history : forall logf_o expf_o eps ops n per r st mss,
+  m_run logf_o expf_o ops (m_init n per r) = Some (st, mss) ->
+  Forall (Forall (msg_ok logf_o expf_o eps (bound_params ops))) mss /\
+  all_subs (sub_decl logf_o (bound_params ops)) st.
+Proof. exact run_in_range. Qed.
+
+Theorem C19_in_range_history_nonvacuous :
+  int_bounds ex_int_param 0 127 /\ bindable ex_int_param = true.
+Proof. exact int_bounds_nonvacuous. Qed.
 
 (* a float-typed linear parameter receives a value inside [min,max], whatever
    the slot value, gain and offset (NaN and infinities included): by the clamp
